@@ -86,7 +86,8 @@ namespace TAO_PEGTL_NAMESPACE::uri
    struct reg_name : star< sor< unreserved, pct_encoded, sub_delims > > {};
 
    struct port : star< abnf::DIGIT > {};
-   struct host : sor< IP_literal, IPv4address, reg_name > {};
+   // A reg-name can start with something that looks like an IPv4address, e.g. "1.2.3.4.com".
+   struct host : sor< IP_literal, seq< IPv4address, not_at< sor< unreserved, pct_encoded, sub_delims > > >, reg_name > {};
    struct userinfo : star< sor< unreserved, pct_encoded, sub_delims, colon > > {};
    struct opt_userinfo : opt< userinfo, one< '@' > > {};
    struct authority : seq< opt_userinfo, host, opt< colon, port > > {};
